@@ -159,6 +159,11 @@ def traverse_path_step(obj: Any, segment: str) -> Any:
     if isinstance(obj, dict):
         return obj[segment]
 
+    # Dynamic keys of a dict-like model (DictState) are mapping keys: never a
+    # sequence index ("0") and never a same-named method ("items", "keys", ...)
+    if isinstance(obj, DictLikeModel) and segment not in type(obj).model_fields:
+        return obj[segment]
+
     # Attempt list/tuple index
     try:
         idx = int(segment)
@@ -179,6 +184,10 @@ def assign_path_step(obj: Any, segment: str, value: Any) -> None:
         value: The value to assign.
     """
     if isinstance(obj, dict):
+        obj[segment] = value
+        return
+
+    if isinstance(obj, DictLikeModel) and segment not in type(obj).model_fields:
         obj[segment] = value
         return
 
